@@ -71,7 +71,7 @@ def ref_energy(v, R):
     return -e
 
 
-def lin_diff(actual, expected):
+def lin_diff(actual, expected, _cases=True):
     """Compare two polys monomial-wise.  Returns ('equal',) | ('coeff', mono, a, e) |
     ('dep-missing', syms) | ('dep-extra', syms) | ('unknown', detail)."""
     if actual is None or expected is None:
@@ -113,6 +113,10 @@ def lin_diff(actual, expected):
     nd = nested_coeff_diff(actual, expected)
     if nd is not None:
         return ("coeff", nd[0], nd[1], nd[2])
+    if _cases:
+        cd = case_diff(actual, expected)
+        if cd is not None and cd[0] != "unknown":
+            return cd
     return ("unknown", "normal forms differ structurally: %r  vs  %r" % (actual, expected))
 
 
@@ -262,8 +266,106 @@ def where_cases(term, limit=4):
             if t2 == t:
                 break
             t = t2
-        out.append(([(str(c)[:40], asg[i]) for i, c in enumerate(conds)], t))
+        out.append((_CaseTag([(str(c)[:40], asg[i]) for i, c in enumerate(conds)], [(c, asg[i]) for i, c in enumerate(conds)]), t))
     return out
+
+
+class _CaseTag(list):
+    """printable [(condition text, truth)]; .terms holds [(condition term, truth)]"""
+    def __init__(self, shown, terms):
+        super().__init__(shown)
+        self.terms = terms
+
+
+def case_diff(actual, expected):
+    """A value built with elementwise selections (`where`) against a closed-form expectation: every case must equal the
+    expectation.  Recognises the *saturation* shortcut softplus(x) -> x: exact (torch's own softplus does it) only under a
+    condition that implies x > threshold >= 20; under any other condition (|x| > 20, x < -20, ...) the case is wrong, because
+    softplus(x) -> 0, not x, for large negative x.  Returns a lin_diff outcome or None (no selection inside)."""
+    cases = where_cases(actual) if actual is not None and hasattr(actual, "all_atoms") else None
+    if not cases or (len(cases) == 1 and not cases[0][0]):
+        return None
+    worst = ("equal",)
+    for tag, t in cases:
+        d = lin_diff(t, expected, _cases=False)
+        if d[0] == "equal":
+            continue
+        if diff_verdict(d) is False:
+            return d
+        sat = _saturation(t, expected)
+        if sat is not None:
+            x = sat
+            ok = False
+            for c, truth in tag.terms:
+                ca = c.single_atom() if hasattr(c, "single_atom") else None
+                if truth and isinstance(ca, T.App) and ca.op in ("cmp_Gt", "cmp_GtE") and ca.args[0] == x and hasattr(ca.args[1], "const_value") and (ca.args[1].const_value() or 0) >= 20:
+                    ok = True
+            if ok:
+                continue
+            return ("coeff", "softplus(%s)" % (str(x)[:60],), "replaced by its argument in the case %s" % (list(tag),), "softplus itself (it tends to 0, not to x, for large negative x)")
+        worst = d
+    return worst
+
+
+def _saturation(t, expected):
+    """X such that t is `expected` with one softplus(X) (or sum of it) replaced by X; else None."""
+    if not hasattr(t, "terms") or not hasattr(expected, "terms"):
+        return None
+    ma, me = set(t.terms), set(expected.terms)
+    extra_e = [m for m in me if m not in ma or t.terms[m] != expected.terms[m]]
+    if len(extra_e) != 1:
+        return None
+    m = extra_e[0]
+    if len(m) != 1 or m[0][1] != 1 or not isinstance(m[0][0], T.App):
+        return None
+    a = m[0][0]
+    c = expected.terms[m]
+    rest_e = T.Poly({k: v for k, v in expected.terms.items() if k != m})
+    delta = t - rest_e  # what t has in place of c * a
+    if a.op == "softplus":
+        x = a.args[0]
+        return x if delta == T.const(c) * x else None
+    if a.op == "sum" and hasattr(a.args[0], "single_atom"):
+        ia = a.args[0].single_atom()
+        if isinstance(ia, T.App) and ia.op == "softplus":
+            x = ia.args[0]
+            return x if delta == T.const(c) * T.app("sum", x, *a.args[1:]) else None
+    return None
+
+
+def count_coeff_diff(actual, expected, int_syms):
+    """Two sums whose terms agree except for their *count coefficients* (expressions in batch sizes / sample numbers: N // b,
+    ceil(N / b), 1 / b ...): decide each coefficient exactly on a grid of the integer symbols.  Returns a lin_diff outcome or None."""
+    from .. import ints
+
+    def split(p):
+        out = {}
+        for mono, c in p.terms.items():
+            cnt, rest = T.const(c), []
+            for a, pw in mono:
+                sy = T.P(a).syms()
+                is_cnt = (isinstance(a, T.Sym) and a.name in int_syms) or (isinstance(a, T.App) and a.op in ints._COUNT_OPS + ("group",) and sy and sy <= set(int_syms))
+                if is_cnt:
+                    cnt = cnt * T.powq(T.P(a), pw)
+                else:
+                    rest.append((a, pw))
+            key = tuple(rest)
+            out[key] = out.get(key, T.ZERO) + cnt
+        return out
+
+    if actual is None or expected is None or not hasattr(actual, "terms") or not hasattr(expected, "terms"):
+        return None
+    sa, se = split(actual), split(expected)
+    if set(sa) != set(se):
+        return None
+    for key in sorted(sa, key=repr):
+        r = ints.count_compare(sa[key], se[key], int_syms)
+        if r is None:
+            return None
+        if r[0] == "differs":
+            w = r[1]
+            return ("coeff", T._mono_repr(key)[:80] or "1", "%s = %s at %s" % (str(sa[key])[:60], w["got"], w["env"]), "%s = %s" % (str(se[key])[:40], w["want"]))
+    return ("equal",)
 
 
 def diff_verdict(d):
